@@ -271,7 +271,10 @@ class Evaluator(object):
     Python callables taking evaluated args).  Unknown names become symbols.
     ``hooks`` may override: call(name, node, args) -> RF or None."""
 
-    def __init__(self, env=None, call_hook=None, attr_hook=None, strict_names=False, constants=None):
+    def __init__(self, env=None, call_hook=None, attr_hook=None, strict_names=False, constants=None,
+                 mod_identity=False, ifexp_hook=None):
+        self.mod_identity = mod_identity
+        self.ifexp_hook = ifexp_hook
         self.env = dict(env or {})
         self.call_hook = call_hook
         self.attr_hook = attr_hook
@@ -319,6 +322,8 @@ class Evaluator(object):
                 return _BIN[type(e.op)](a, b)
             if isinstance(e.op, (ast.Mod, ast.FloorDiv)):
                 a, b = self.ev(e.left), self.ev(e.right)
+                if self.mod_identity and isinstance(e.op, ast.Mod):
+                    return a            # congruence mode: v % m  ==  v  (mod m)
                 return opaque({ast.Mod: "mod", ast.FloorDiv: "floordiv"}[type(e.op)], a, b)
             raise Inconclusive("binary %s" % type(e.op).__name__)
         if isinstance(e, ast.Call):
@@ -330,6 +335,12 @@ class Evaluator(object):
                     return r
             raise Inconclusive("attribute %s" % ast.unparse(e))
         if isinstance(e, ast.IfExp):
+            if self.ifexp_hook is not None:
+                d = self.ifexp_hook(e.test)
+                if d is True:
+                    return self.ev(e.body)
+                if d is False:
+                    return self.ev(e.orelse)
             raise Inconclusive("conditional expression %s" % ast.unparse(e))
         if isinstance(e, ast.Subscript):
             if self.attr_hook:
